@@ -252,6 +252,15 @@ def window_invariants(facts):
             off = [txt(x["e"]["r"]) for x in st if x.get("k") == "Expr" and strip(x["e"]).get("k") == "Assign" and is_this_field(strip(x["e"])["l"], ("window_offset",))]
             nxt = st[i + 1] if i + 1 < len(st) else {}
             ok = False
+            # the clamp as min(): in the recomputation itself or as the next statement (the normaliser writes `if (x > b) x = b;` so)
+            for cand in [e["r"]] + ([strip(nxt["e"])["r"]] if nxt.get("k") == "Expr" and strip(nxt.get("e")).get("k") == "Assign" and strip(nxt["e"]).get("op") == "=" and is_this_field(strip(nxt["e"])["l"], ("first_interesting_column",)) else []):
+                m = strip(cand)
+                if isinstance(m, dict) and m.get("k") == "Call" and (m.get("callee") or "").startswith("std::min") and len(m.get("args", [])) == 2:
+                    at = [txt(a) for a in m["args"]]
+                    if (not off and True) or any(a in off for a in at):
+                        if cand is e["r"] or "first_interesting_column" in at:
+                            ok = True
+                            nxt = {"k": "If", "c": {"k": "Bin", "op": ">", "l": e["l"], "r": [a for a in m["args"] if txt(a) != "first_interesting_column"][0]}, "t": None}
             if nxt.get("k") == "If" and not nxt.get("e"):
                 c = strip(nxt["c"])
                 body = stmts_of(nxt["t"])
